@@ -220,7 +220,7 @@ Fixpoint separated (l : list ftok) : bool :=
   | a :: ((b :: _) as r) =>
       let greedy := match a with
                     | FLib LY | FLib Ls | FLib LEsS | FLib LEsf | FLib (LEnS _) | FLib (LEnf _)
-                    | FLib Lu | FLib Lw | FLib LU | FLib LW | FLib LE4Y => true
+                    | FLib Lu | FLib Lw | FLib LU | FLib LW | FLib LE4Y | FLib Le => true
                     | FLib Lz | FLib Lcz | FLib Lccz | FLib Lcccz | FLib LEz | FLib LEsz => true
                     | _ => false
                     end in
@@ -255,17 +255,17 @@ Definition is_month_name (t : ftok) : bool :=
 Definition lossless_fmt (fmt : list Z) (off : Z) (year : Z) : bool :=
   let l := lex fmt in
   clean_fmt fmt && separated l
-  && forallb (fun t => match t with FOther raw => locale_name_spec raw | FLib LZ => false | FLib Le => false | _ => true end) l
+  && forallb (fun t => match t with FOther raw => locale_name_spec raw | FLib LZ => false | _ => true end) l
   && (has l (fun k => match k with Ls => true | _ => false end)
       || ((has l (fun k => match k with LY => true | _ => false end)
            || (has l (fun k => match k with LE4Y => true | _ => false end) && (-999 <=? year) && (year <=? 9999)))
           && (((has l (fun k => match k with Lm => true | _ => false end) || existsb is_month_name l)
-               && has l (fun k => match k with Ld => true | _ => false end))
+               && has l (fun k => match k with Ld | Le => true | _ => false end))
               (* "dates expressed through week numbers": a week number and a weekday with no month/day token
                  (a later %m or %d would make parse() forget the week number) *)
               || (has l (fun k => match k with LU | LW => true | _ => false end)
                   && has l (fun k => match k with Lu | Lw => true | _ => false end)
-                  && negb (has l (fun k => match k with Lm | Ld => true | _ => false end))
+                  && negb (has l (fun k => match k with Lm | Ld | Le => true | _ => false end))
                   && negb (existsb is_month_name l)))
           && has l (fun k => match k with LH => true | _ => false end)
           && has l (fun k => match k with LM => true | _ => false end)
